@@ -95,14 +95,26 @@ def run(prog, tier):
     # ... and the estimators receive that read-out itself: as a resolved term, the data argument of every density estimator built in
     # get_marginal is the call (a local holding it is looked through; a re-binding that selects from it is part of the term)
     rgm = Resolver(gm, prog, c.module, c)
-    est = [(n, rgm.stmt_of(n)) for n in ast.walk(gm) if isinstance(n, ast.Call) and isinstance(n.func, ast.Name)
-           and n.func.id in ("UnimodalPdf", "GaussianKDE", "KDE2D", "BinaryTree") and n.args]
+    EST_ = ("UnimodalPdf", "GaussianKDE", "KDE2D")
+
+    def is_estimator(f_, st_):
+        t_ = rgm.term(f_, st_) if isinstance(f_, ast.Name) else f_
+        arms = [t_.body, t_.orelse] if isinstance(t_, ast.IfExp) else [t_]
+        return all(isinstance(a_, ast.Name) and a_.id in EST_ for a_ in arms)
+    est = []
+    for n in ast.walk(gm):
+        if isinstance(n, ast.Call) and isinstance(n.func, (ast.Name, ast.IfExp)) and n.args:
+            st_ = rgm.stmt_of(n)
+            if is_estimator(n.func, st_):
+                est.append((n, st_))
     whym = []
     for n, st_ in est:
         t_ = rgm.term(n.args[0], st_)
         if pmatch(t_, "self.get_parameter(index, burn=burn, thin=thin)") is None and pmatch(t_, "self.get_parameter(index, burn, thin)") is None:
-            whym.append(f"line {n.lineno}: {n.func.id} receives `{U(t_)[:120]}`")
-    obs.append(struct_ob("marginal-passthrough", qual(c, gm) + "[estimator-input]", bool(est) and not whym,
+            whym.append(f"line {n.lineno}: {U(n.func)} receives `{U(t_)[:120]}`")
+    if not est:
+        raise AnalysisError(f"anchor vanished: no density estimator is built in {qual(c, gm)}")
+    obs.append(struct_ob("marginal-passthrough", qual(c, gm) + "[estimator-input]", not whym,
                          "the density estimate must be built from exactly the burned / thinned values of the parameter: " + "; ".join(whym[:2]),
                          c.module.relpath, gm.lineno, tier="F"))
     for rel, mi in prog.by_rel.items():
